@@ -357,6 +357,7 @@ func init() {
 		"symAnd": func(fr *frame, args []value) value { return andv(args[0], args[1]) },
 		"symOr":  func(fr *frame, args []value) value { return notv(andv(notv(args[0]), notv(args[1]))) },
 		"symNot": func(fr *frame, args []value) value { return notv(args[0]) },
+		"symDebug":      func(fr *frame, args []value) value { return nil },
 		"symIsSymbolic": func(fr *frame, args []value) value {
 			return true
 		},
